@@ -1,7 +1,7 @@
 #!/venv/bin/python -B
 """Prepare a scratch worktree for a sub-agent that writes breaking (or property-keeping) changes.
 
-  mkagent.py <tag> <PROP> [theme-file]     -> creates /tmp/wt_<tag>, writes _seed/TASK.md there
+  mkagent.py <tag> <PROP> [theme-file] [--refactor]    -> creates /tmp/wt_<tag>, writes _seed/TASK.md (or _refactor/TASK.md) there
 
 The task text is seeded/agent_prompt_template.txt with the property record and the worktree path filled
 in (plus an optional theme paragraph); nothing from /verif other than that text reaches the agent."""
@@ -14,6 +14,8 @@ VERIF = os.path.dirname(os.path.dirname(os.path.abspath(__file__)))
 
 
 def main(argv):
+    refactor = '--refactor' in argv
+    argv = [a for a in argv if a != '--refactor']
     tag, prop = argv[0], argv[1]
     theme = open(argv[2]).read().strip() if len(argv) > 2 else ''
     wt = '/tmp/wt_' + tag
@@ -24,12 +26,13 @@ def main(argv):
         p = json.loads(line)
         if p['id'] == prop:
             rec = p
-    tpl = open(os.path.join(VERIF, 'seeded', 'agent_prompt_template.txt')).read()
+    tpl = open(os.path.join(VERIF, 'refactors' if refactor else 'seeded', 'agent_prompt_template.txt')).read()
     text = tpl.replace('@WT@', wt).replace('@PROP@', json.dumps(rec, indent=1))
     if theme:
         text += '\n\nADDITIONAL GUIDANCE FOR THIS ASSIGNMENT:\n' + theme + '\n'
-    os.makedirs(os.path.join(wt, '_seed'), exist_ok=True)
-    with open(os.path.join(wt, '_seed', 'TASK.md'), 'w') as f:
+    sub = '_refactor' if refactor else '_seed'
+    os.makedirs(os.path.join(wt, sub), exist_ok=True)
+    with open(os.path.join(wt, sub, 'TASK.md'), 'w') as f:
         f.write(text)
     print(wt)
 
